@@ -149,6 +149,7 @@ def monitor(run):
         if not after["busy"]:
             idle_since = True
             prev_retry_k = prev_retry_delay = None
+    bad += PC.partitioner_monitor(run)
     return bad
 
 
@@ -253,6 +254,7 @@ def wire_monitor(run):
                 bad.append((h, "order: payload %r at broker %d carries %r, expected whole sends in submission order %r" % ((t, p), node, mids, expect_m)))
     for p_ in run.problems[:3]:
         bad.append((0, "driver: " + p_))
+    bad += PC.partitioner_monitor(run)
     return bad
 
 
